@@ -172,7 +172,13 @@ class ActionDefinition:
         elif isinstance(config, dict):
             # 📝 Handle object definition: {"type": "myAction", ...}
             logger.debug("🔧 Parsing action definition from dict: %s", config)
-            self.type: str = config.get("type", "UnknownAction")
+            action_type = config.get("type", "UnknownAction")
+            if not isinstance(action_type, str) or not action_type:
+                raise InvalidConfigError(
+                    "Action object must have a non-empty string 'type', "
+                    f"got {action_type!r}."
+                )
+            self.type: str = action_type
             self.params: Optional[Dict[str, Any]] = config.get("params")
         else:
             # ❌ Reject invalid definitions
@@ -269,6 +275,11 @@ class GuardDefinition:
             # 🌳 Composite guards accept their operands under `children`, or
             #    (as XState's helpers emit) inside `params`.
             children_cfg = config.get("children") or []
+            if not isinstance(children_cfg, (list, tuple)):
+                raise InvalidConfigError(
+                    f"❌ Guard '{guard_type}' has invalid 'children' of type "
+                    f"'{type(children_cfg).__name__}'. Expected a list of guards."
+                )
             if not children_cfg and isinstance(self.params, dict):
                 children_cfg = (
                     self.params.get("guards")
@@ -372,7 +383,25 @@ class TransitionDefinition:
         )
         self.event: str = event
         self.source: "StateNode" = source
-        self.target_str: Optional[str] = config.get("target")
+        # 🛡️ `target` names a state and `reenter` is a flag. A wrong-typed
+        #    value used to be taken at face value: a falsy one silently made
+        #    the transition targetless / non-re-entering, any other surfaced
+        #    much later as a raw TypeError from inside `send()`.
+        raw_target = config.get("target")
+        if raw_target is not None and not isinstance(raw_target, str):
+            raise InvalidConfigError(
+                f"Transition for event '{event}' on state '{source.id}' has "
+                f"an invalid 'target' of type '{type(raw_target).__name__}'. "
+                "Expected the name of a state as a string."
+            )
+        raw_reenter = config.get("reenter", False)
+        if raw_reenter is not None and not isinstance(raw_reenter, bool):
+            raise InvalidConfigError(
+                f"Transition for event '{event}' on state '{source.id}' has "
+                f"an invalid 'reenter' of type '{type(raw_reenter).__name__}'. "
+                "Expected true or false."
+            )
+        self.target_str: Optional[str] = raw_target
         self.actions: List[ActionDefinition] = actions or []
 
         # 🛡️ Guard resolution.
@@ -394,7 +423,7 @@ class TransitionDefinition:
         self.guard_def: Optional[GuardDefinition] = (
             GuardDefinition(raw_guard) if raw_guard is not None else None
         )
-        self.reenter: bool = config.get("reenter", False)
+        self.reenter: bool = bool(raw_reenter)
         #: Marks an explicitly forbidden transition (``on: {"E": None}``).
         #: Selecting it consumes the event without changing state, which stops
         #: the upward walk from reaching an ancestor's handler.
@@ -731,6 +760,13 @@ class StateNode(Generic[TContext, TEvent]):
 
     def _determine_state_type(self, config: Dict[str, Any]) -> StateType:
         """Determines the type of the state based on its configuration."""
+        declared = config.get("type")
+        if declared is not None and not isinstance(declared, str):
+            raise InvalidConfigError(
+                f"State '{self.id}' has an invalid 'type' of type "
+                f"'{type(declared).__name__}'. Expected one of 'atomic', "
+                "'compound', 'parallel', 'final' or 'history'."
+            )
         if "states" in config:
             # A state with children is either compound or parallel
             state_type = config.get("type", "compound")
@@ -827,6 +863,14 @@ class StateNode(Generic[TContext, TEvent]):
 
     def _parse_actions(self, config: Optional[Any]) -> List[ActionDefinition]:
         """Parses an action or list of actions from config."""
+        if config is None:
+            return []
+        if not isinstance(config, (str, dict, list)):
+            raise InvalidConfigError(
+                f"State '{self.id}' has an invalid action list of type "
+                f"'{type(config).__name__}'. Expected an action name, an "
+                "action object or a list of them."
+            )
         if not config:
             return []
         return [ActionDefinition(a) for a in self._ensure_list(config)]
@@ -876,6 +920,14 @@ class StateNode(Generic[TContext, TEvent]):
     ) -> Optional[TransitionDefinition]:
         """Parses the 'onDone' transition for a compound/parallel state."""
         on_done_config = config.get("onDone")
+        if on_done_config is None:
+            return None
+        if not isinstance(on_done_config, (str, dict, list)):
+            raise InvalidConfigError(
+                f"State '{self.id}' has an invalid 'onDone' of type "
+                f"'{type(on_done_config).__name__}'. Expected a target, a "
+                "transition object or a list of them."
+            )
         if not on_done_config:
             return None
 
@@ -942,8 +994,21 @@ class StateNode(Generic[TContext, TEvent]):
                     f"object/dict (or a list of them)."
                 )
 
+            src = i_config.get("src")
+            if src is not None and not isinstance(src, str):
+                raise InvalidConfigError(
+                    f"State '{self.id}' has an 'invoke' whose 'src' is of type "
+                    f"'{type(src).__name__}'. Expected the name of a service "
+                    "as a string."
+                )
+
             # The invoke ID defaults to the state's ID if not provided.
             invoke_id = i_config.get("id", self.id)
+            if not isinstance(invoke_id, str) or not invoke_id:
+                raise InvalidConfigError(
+                    f"State '{self.id}' has an 'invoke' with an invalid 'id' "
+                    f"{invoke_id!r}. Expected a non-empty string."
+                )
 
             on_done_transitions = [
                 self._create_transition(f"done.invoke.{invoke_id}", t)
@@ -1153,7 +1218,13 @@ class MachineNode(StateNode[TContext, TEvent]):
         self.initial_context = raw_context
         #: Upper bound on microsteps when settling transient ("always")
         #: transitions, mirroring XState's `maxIterations` (v5.31.0).
-        self.max_iterations: int = int(config.get("maxIterations", 1000))
+        raw_max = config.get("maxIterations", 1000)
+        if isinstance(raw_max, bool) or not isinstance(raw_max, int):
+            raise InvalidConfigError(
+                f"Machine '{config['id']}' has an invalid 'maxIterations' of "
+                f"type '{type(raw_max).__name__}'. Expected an integer."
+            )
+        self.max_iterations: int = raw_max
         #: Machine-level output declaration, resolved when a top-level final
         #: state is reached.
         self.machine_output: Any = config.get("output")
